@@ -11,9 +11,8 @@ section
 variable {R : Type} (ro : RealOps R)
 
 /-- what the reader does with the tokens of one serializer iteration -/
-def SimGoal (allow : Bool) (st : PState R) (op : Op R) (rest : List (Op R)) (r : SerStep R)
-    (more : List (Tok R)) : Prop :=
-  ∃ st' new, parseLoop ro allow ⟨st, []⟩ (r.toks ++ more) = parseLoop ro allow ⟨st', []⟩ more
+def SimGoal (allow : Bool) (st : PState R) (op : Op R) (rest : List (Op R)) (r : SerStep R) : Prop :=
+  ∃ st' new, (∀ more, parseLoop ro allow ⟨st, []⟩ (r.toks ++ more) = parseLoop ro allow ⟨st', []⟩ more)
     ∧ st'.ops = st.ops ++ new ∧ st'.compat = st.compat
     ∧ opsEquiv ro new (op :: rest.take r.extra) = true ∧ Inv ro r.st st'
 
@@ -72,7 +71,8 @@ theorem ptEquiv_rb (laws : RealLaws ro) {p : Pt R} (hx : finiteR ro p.x = true) 
 local macro "sim_eval" laws:ident : tactic => `(tactic|
   (refine ⟨?st', ?new, ?h1, ?h2, ?h3, ?h4, ?h5⟩
    case h1 =>
-     (simp [*, ptToks, matrixToks, colorToks, numTok_fin, numArrayTok_fin, tdaArrayTok_fin, parseLoop, step, one1, name1,
+     (intro more
+      simp [*, ptToks, matrixToks, colorToks, numTok_fin, numArrayTok_fin, tdaArrayTok_fin, parseLoop, step, one1, name1,
         popNum, popNums, popName, popStr, popInt, asNumber_numQ, allSome_asNumber_numQ, allSome_tdaOfPrim, allSome_asNumber_numQ', allSome_tdaOfPrim', okPush,
         addBDC, addC, addCm, addD, addDP, addJLower, addJUpper, addKUpper, addKLower, addL, addM, addRe, addRGUpper,
         addRgLower, addRi, addTdLower, addTDUpper, addTf, addTjLower, addTJUpper, addTm, addTr, addV, addY, addQuote,
@@ -88,11 +88,11 @@ local macro "fin_split" hf:ident : tactic => `(tactic|
   simp only [finiteOp, finitePt, finiteMatrix, finiteProps, finiteColor, Bool.and_eq_true] at $hf:ident)
 
 theorem serOne_sim (laws : RealLaws ro) (cfg : Cfg) (allow : Bool) (s : SState R) (st : PState R)
-    (op : Op R) (rest : List (Op R)) (r : SerStep R) (more : List (Tok R))
+    (op : Op R) (rest : List (Op R)) (r : SerStep R)
     (hf : finiteOp ro op = true) (hfr : ∀ o ∈ rest.take r.extra, finiteOp ro o = true)
     (ha : acceptedOp ro cfg op = true)
     (hinv : Inv ro s st) (h : serOne ro cfg s op rest = some r) :
-    SimGoal ro allow st op rest r more := by
+    SimGoal ro allow st op rest r := by
   cases op
   case inlineImage img => simp [serOne] at h
   case moveTo p =>
@@ -209,7 +209,8 @@ theorem serOne_sim (laws : RealLaws ro) (cfg : Cfg) (allow : Bool) (s : SState R
       obtain ⟨qs, hq1, hq2⟩ := primToks_writable ro (ps := args) (cfg := cfg) (by simpa [acceptedOp] using ha)
       have he := serPrims?_equiv ro laws cfg args qs (by simpa [finiteOp, finiteColor] using hf) hq2
       refine ⟨st.push [.strokeColor (.other qs)], [.strokeColor (.other qs)], ?_, rfl, rfl, ?_, hinv⟩
-      · simp only [colorToks, hq1, List.append_assoc, if_true]
+      · intro more
+        simp only [colorToks, hq1, List.append_assoc, if_true]
         rw [parseLoop_prims]
         simp [parseLoop, step, okPush]
       · simp [opsEquiv, opEquiv, colorEquiv, he]
@@ -221,12 +222,68 @@ theorem serOne_sim (laws : RealLaws ro) (cfg : Cfg) (allow : Bool) (s : SState R
       obtain ⟨qs, hq1, hq2⟩ := primToks_writable ro (ps := args) (cfg := cfg) (by simpa [acceptedOp] using ha)
       have he := serPrims?_equiv ro laws cfg args qs (by simpa [finiteOp, finiteColor] using hf) hq2
       refine ⟨st.push [.fillColor (.other qs)], [.fillColor (.other qs)], ?_, rfl, rfl, ?_, hinv⟩
-      · simp only [colorToks, hq1, List.append_assoc]
+      · intro more
+        simp only [colorToks, hq1, List.append_assoc]
         rw [parseLoop_prims]
         simp [parseLoop, step, okPush]
       · simp [opsEquiv, opEquiv, colorEquiv, he]
     | _ => simp [serOne] at h; subst h; fin_split hf; sim_eval laws; exact hinv
   all_goals (simp [serOne] at h; subst h; fin_split hf; sim_eval laws; exact hinv)
+
+
+theorem serOne_some_of_accepted (cfg : Cfg) (s : SState R) (op : Op R) (rest : List (Op R))
+    (ha : acceptedOp ro cfg op = true) : ∃ r, serOne ro cfg s op rest = some r := by
+  cases op
+  case inlineImage img => simp [acceptedOp] at ha
+  case beginMarkedContent tag p => cases p <;> simp [serOne]
+  case markedContentPoint tag p => cases p <;> simp [serOne]
+  case fillAndStroke w => cases w <;> simp [serOne]
+  case fill w => cases w <;> simp [serOne]
+  case clip w => cases w <;> simp [serOne]
+  case close => simp only [serOne]; split <;> simp
+  case textNewline => simp only [serOne]; split <;> simp
+  case wordSpacing ws => simp only [serOne]; split <;> simp
+  case leading l => simp only [serOne]; split <;> (try split) <;> simp
+  case curveTo c1 c2 p => simp only [serOne]; split <;> (try split) <;> simp
+  all_goals simp [serOne]
+
+/-- the whole serializer, read back: by induction on the fuel (= number of operations still to write) -/
+theorem serLoop_sim (laws : RealLaws ro) (cfg : Cfg) (allow : Bool) :
+    ∀ (fuel : Nat) (ops : List (Op R)) (s : SState R) (st : PState R),
+      ops.length ≤ fuel → (∀ o ∈ ops, finiteOp ro o = true) → (∀ o ∈ ops, acceptedOp ro cfg o = true) →
+      Inv ro s st →
+      ∃ toks st' new, serLoop ro cfg fuel s ops = .ok toks
+        ∧ parseLoop ro allow ⟨st, []⟩ toks = .ok ⟨st', []⟩
+        ∧ st'.ops = st.ops ++ new ∧ st'.compat = st.compat ∧ opsEquiv ro new ops = true := by
+  intro fuel
+  induction fuel with
+  | zero =>
+    intro ops s st hl _ _ _
+    have : ops = [] := List.eq_nil_of_length_eq_zero (Nat.le_zero.mp hl)
+    subst this
+    exact ⟨[], st, [], rfl, rfl, by simp, rfl, rfl⟩
+  | succ fuel ih =>
+    intro ops s st hl hfin hacc hinv
+    cases ops with
+    | nil => exact ⟨[], st, [], rfl, rfl, by simp, rfl, rfl⟩
+    | cons op rest =>
+      obtain ⟨r, hr⟩ := serOne_some_of_accepted ro cfg s op rest (hacc op (by simp))
+      have hdrop : ∀ o ∈ rest.drop r.extra, o ∈ op :: rest := fun o ho => List.mem_cons_of_mem _ (List.mem_of_mem_drop ho)
+      have htake : ∀ o ∈ rest.take r.extra, o ∈ op :: rest := fun o ho => List.mem_cons_of_mem _ (List.mem_of_mem_take ho)
+      have hlen : (rest.drop r.extra).length ≤ fuel := by
+        simp only [List.length_drop, List.length_cons] at *
+        omega
+      obtain ⟨st1, new1, hp1, hops1, hcompat1, heq1, hinv1⟩ := serOne_sim ro laws cfg allow s st op rest r
+        (hfin op (by simp)) (fun o ho => hfin o (htake o ho)) (hacc op (by simp)) hinv hr
+      obtain ⟨toks2, st2, new2, hser2, hparse2, hops2, hcompat2, heq2⟩ :=
+        ih (rest.drop r.extra) r.st st1 hlen (fun o ho => hfin o (hdrop o ho)) (fun o ho => hacc o (hdrop o ho)) hinv1
+      refine ⟨r.toks ++ toks2, st2, new1 ++ new2, ?_, ?_, ?_, ?_, ?_⟩
+      · simp [serLoop, hr, hser2]
+      · rw [hp1 toks2, hparse2]
+      · rw [hops2, hops1, List.append_assoc]
+      · rw [hcompat2, hcompat1]
+      · have := opsEquiv_append ro heq1 heq2
+        simpa [List.take_append_drop] using this
 
 end
 end Content
